@@ -622,6 +622,15 @@ func HostileForC14(run *vk.Run) {
 // symbols of Plugin.tla (e.g. "rs_ok", "error", "done"). For checks of other properties that need a real plugin
 // recipient in a recipient list; dir is what Setup returned.
 func ScriptedRecipient(dir string, script []string) (age.Recipient, error) {
+	enc, err := ScriptedRecipientString(dir, script)
+	if err != nil {
+		return nil, err
+	}
+	return plugin.NewRecipient(enc, &plugin.ClientUI{})
+}
+
+// ScriptedRecipientString is the recipient string (age1vscript1...) of such a recipient, for the command line.
+func ScriptedRecipientString(dir string, script []string) (string, error) {
 	id := fmt.Sprintf("x%d", atomic.AddInt64(&counter, 1))
 	var steps []step
 	for _, m := range script {
@@ -633,7 +642,7 @@ func ScriptedRecipient(dir string, script []string) (age.Recipient, error) {
 	}
 	b, _ := json.Marshal(steps)
 	if err := os.WriteFile(filepath.Join(dir, "scripts", id+".json"), b, 0o644); err != nil {
-		return nil, err
+		return "", err
 	}
-	return plugin.NewRecipient(plugin.EncodeRecipient("vscript", []byte(id)), &plugin.ClientUI{})
+	return plugin.EncodeRecipient("vscript", []byte(id)), nil
 }
